@@ -90,7 +90,8 @@ class EOL(Leaf):
 
     def _pretty(self, lean=False):
         _ = lean
-        return EOL_SYM
+        # NOTE: the form the grammar reads; EOL_SYM is for diagrams
+        return '$->'
 
 
 @nodedataclass
